@@ -3,7 +3,7 @@
    a Dec value v is the integer v*10^18 (P18), a BigDec value the integer v*10^36 (P36). *)
 From Coq Require Import ZArith List Bool.
 Import ListNotations.
-From Osmo Require Import Base.DecModel C13.Common C13.Sqrt C13.SqrtProofs.
+From Osmo Require Import Base.DecModel C13.Common C13.Sqrt C13.SqrtProofs C13.SigFig C13.SigFigProofs.
 Open Scope Z_scope.
 
 (* ---------- monotone square roots (integers only, axiom-free) ---------- *)
@@ -43,4 +43,40 @@ Example C13_sqrt_nonvacuous :
   monotonic_sqrt 1 = Ok (10 ^ 9) /\ monotonic_sqrt 0 = Ok 0 /\
   monotonic_sqrt_bigdec (2 * P36) = Ok 1414213562373095048801688724209698079 /\
   monotonic_sqrt (-1) = Err ENegSqrt.
+Proof. vm_compute. repeat split. Qed.
+
+(* ---------- significant-figure rounding (integers only, axiom-free) ---------- *)
+
+(* SigFigRound d 10^s, d > 0.  With k the number of x10 scalings the loop performs - the least k with d*10^k >= 0.1
+   (10^17 raw) - the last kept digit has unit 10^18/(10^s*10^k) raw units; the result r differs from d by at most half
+   of it, and keeps no digit below it.  The only possible failure is the loud range panic. *)
+Theorem C13_sigfig_half_unit : forall d s, 0 < d -> 0 <= s ->
+  match sigfig_round d (10 ^ s) with
+  | Ok r => exists k, 0 <= k <= 17 /\ 10 ^ 17 <= d * 10 ^ k /\ (0 < k -> d * 10 ^ (k - 1) < 10 ^ 17) /\
+                      2 * (10 ^ s * 10 ^ k) * Z.abs (r - d) <= P18 /\
+                      (s + k <= 18 -> exists m, r = m * 10 ^ (18 - s - k))
+  | Err e => e = EOverflow
+  end.
+Proof. exact sigfig_round_bound. Qed.
+Print Assumptions C13_sigfig_half_unit.
+
+Theorem C13_sigfig_returns_in_range : forall d s, 0 < d -> 0 <= s <= 58 -> d * 10 ^ s <= 2 ^ 250 * P18 ->
+  exists r, sigfig_round d (10 ^ s) = Ok r.
+Proof. exact sigfig_round_ok. Qed.
+Print Assumptions C13_sigfig_returns_in_range.
+
+Theorem C13_sigfig_zero : forall s, sigfig_round 0 s = Ok 0.
+Proof. exact sigfig_round_zero. Qed.
+Print Assumptions C13_sigfig_zero.
+
+(* a negative argument never leaves the scaling loop normally: the function panics ("Int overflow") *)
+Theorem C13_sigfig_negative_fails : forall d s, d < 0 -> sigfig_round d s = Err EOverflow.
+Proof. exact sigfig_round_negative_fails. Qed.
+Print Assumptions C13_sigfig_negative_fails.
+
+Example C13_sigfig_nonvacuous :
+  sigfig_round 12345678912345678 (10 ^ 3) = Ok 12300000000000000 /\          (* 0.0123456... -> 0.0123 (k = 1) *)
+  sigfig_round 1234500000000000000 (10 ^ 3) = Ok 1234000000000000000 /\      (* tie 1.2345 -> 1.234 (half-even) *)
+  sigfig_round 1235500000000000000 (10 ^ 3) = Ok 1236000000000000000 /\
+  sigfig_round 1 (10 ^ 30) = Ok 1 /\ sigfig_round (-5) 100 = Err EOverflow.
 Proof. vm_compute. repeat split. Qed.
